@@ -238,6 +238,9 @@ static std::string result_str(const Decl& d, const no::arguments& a)
             s += (i ? "+" : "") + nv::hex(vs[i]);
             if (a.get(n, i) != vs[i])
                 s += "!get(i)-disagrees";
+            long long k;
+            if (canon_int(vs[i], k) && (a.as<int>(n, i) != k || a.as<std::string>(n, i) != vs[i]))
+                s += "!typed-access(i)-disagrees";
         }
         if (a.count(n) != vs.size())
             s += "!count-disagrees";
@@ -309,7 +312,43 @@ static std::string handle(const std::vector<std::string>& f0)
         set_env(d, f.at(2));
         std::string r;
         if (op == "P")
+        {
             r = do_parse(p, d, nv::unhex_list(f.at(3)));
+            // the second entry point, parse(vector<user_input>), on a parser of its own: when every token can be
+            // made into a user_input it has to give the same outcome
+            std::vector<no::user_input> ui;
+            bool constructible = true;
+            try
+            {
+                for (auto& t : nv::unhex_list(f.at(3)))
+                    ui.emplace_back(t);
+            }
+            catch (no::parsing_error&)
+            {
+                constructible = false;
+            }
+            if (constructible)
+            {
+                no::parser p2("prog");
+                declare(p2, d);
+                std::string r2;
+                try
+                {
+                    auto a2 = p2.parse(ui);
+                    r2 = result_str(d, a2);
+                }
+                catch (no::parsing_error&)
+                {
+                    r2 = "user";
+                }
+                catch (no::parser_error&)
+                {
+                    r2 = "dev";
+                }
+                if (r2 != r)
+                    r = "ENTRY-POINTS-DIFFER argv:" + r + " user_input:" + r2;
+            }
+        }
         else if (op == "PM1")
         {
             // a parser built in one place and used in another: move-constructed after its declaration
